@@ -28,6 +28,7 @@ type SchedScenario struct {
 	MaxExec int        // cap on executions (0 = none); hitting it is reported as non-exhaustive
 	After   []Action   // executed one by one (connection 0, default schedule, each to quiescence) after the concurrent part
 	Restorable bool    // the outcome also contains what a restart on the resulting files would restore (Cfg must name a data directory)
+	RestoreAOF bool    // ... restoring from the append-only log as well
 }
 
 type ctlInstance struct {
@@ -316,6 +317,7 @@ func runSchedule(sc *SchedScenario, prefix []int, serialOrder [][2]int, trace bo
 				verifrt.SetFS(cp)
 				rcfg := sc.Cfg
 				rcfg.RestoreSnapshot = true
+				rcfg.RestoreAOF = sc.RestoreAOF
 				rcfg.Conns = -1
 				if rin, err, pan := safeNewInstance(rcfg); err == nil && pan == "" {
 					rin.Quiesce()
